@@ -249,5 +249,26 @@ for model in payload['models']:
                 bad.append({'model': model, 'alphadeg': alphadeg, 'combined_load_case': clc, 'matrix': k, 'max_abs_difference': float(abs(g - w).max())})
         if abs(np.asarray(cc.k0.todense()) - np.asarray(cc.k0.todense()).T).max() > 0:
             bad.append({'model': model, 'alphadeg': alphadeg, 'matrix': 'k0', 'not symmetric': True})
+# force_orthotropic_laminate: the matrix handed to the kernels has no 16/26 (and 45) entries; same k0 as with that matrix given as F_reuse
+from compmech.composite import laminate
+for model in payload['models']:
+    if model.startswith('iso_'):
+        continue
+    pay = dict(payload); pay['model'] = model; pay['alphadeg'] = 30.
+    cc = make(pay); cc.s = 11; cc.force_orthotropic_laminate = True
+    cc._calc_linear_matrices()
+    lam = laminate.read_stack(pay['stack'], plyt=pay['plyt'], laminaprop=tuple(pay['laminaprop']))
+    Fz = np.array(lam.ABDE if 'fsdt' in model else lam.ABD, dtype=float)
+    if 'fsdt' in model:
+        Fz[6:, 6:] *= cc.K
+    for (i, j) in [(0, 2), (1, 2), (0, 5), (1, 5), (3, 2), (4, 2), (3, 5), (4, 5)] + ([(6, 7)] if Fz.shape[0] == 8 else []):
+        Fz[i, j] = Fz[j, i] = 0.
+    if abs(np.asarray(cc.F) - Fz).max() > 1e-12*abs(Fz).max():
+        bad.append({'model': model, 'force_orthotropic_laminate': True, 'matrix': 'F', 'max_abs_difference': float(abs(np.asarray(cc.F) - Fz).max())})
+    c2 = make(pay); c2.s = 11; c2.F_reuse = Fz.copy()
+    c2._calc_linear_matrices()
+    g, w = np.asarray(cc.k0.todense()), np.asarray(c2.k0.todense())
+    if abs(g - w).max() > 1e-9*abs(w).max():
+        bad.append({'model': model, 'force_orthotropic_laminate': True, 'matrix': 'k0', 'max_abs_difference': float(abs(g - w).max())})
 out = {'n_mismatch': len(bad), 'first': bad[:6]}
 '''
